@@ -4,6 +4,7 @@ import ComposeVerif.Spec.Dotenv
 import ComposeVerif.Model.DotenvTrace
 import ComposeVerif.Spec.DotenvPrint
 import ComposeVerif.Model.DotenvGlue
+import ComposeVerif.Model.DotenvLine
 /-! line-protocol ops for C18: `dotenv` (model of `dotenv.UnmarshalWithLookup`) -/
 open Lean
 namespace CV.Ops.C18
@@ -151,6 +152,13 @@ def dotenvPWL : Handler := fun args =>
   | some o => outJson o
   | none => Json.mkObj [("unsupported", Json.bool true)]
 
+/-- round 6: the model with the line counter: outcome + the number the error message carries (-1 = none) -/
+def dotenvL : Handler := fun args =>
+  let src := (getStr args "src").toList
+  let lookup := envOfList (getStrMap args "lookup")
+  let r := CV.Dotenv.parseL src lookup
+  Json.mkObj [("out", outJson r.1), ("line", match errorLine r with | some n => Json.num (JsonNumber.fromNat n) | none => Json.num (JsonNumber.fromInt (-1)))]
+
 def handlers : List (String × Handler) := handlers1 ++ [("dotenvSpec", dotenvSpec), ("dotenvT", dotenvT), ("dotenvTags", dotenvTags),
-  ("dotenvCanon", dotenvCanon), ("dotenvPWL", dotenvPWL)]
+  ("dotenvCanon", dotenvCanon), ("dotenvPWL", dotenvPWL), ("dotenvL", dotenvL)]
 end CV.Ops.C18
